@@ -87,20 +87,21 @@ def judge(af, bf, rf, x, y, out, stats):
     # ---- multiplier: exact product of the signed values, bit-truncated (floor) to the result format
     low = af[2] + bf[2] - rf[2]
     p = sx * sy
-    exp = (p >> low) & mr          # >> on Python ints is floor division by 2**low
+    exp = ((p >> low) if low >= 0 else (p << -low)) & mr          # >> on Python ints is floor division by 2**low
     n += 1
     stats['mult'] += 1
     if out['mult'] != exp:
         got = out['mult']
         dw = wa + wb
-        alts = (('bits_above_double_width_read_as_zero', ((p & ((1 << dw) - 1)) >> low) & mr),
-                ('unsigned_product', ((x * y) >> low) & mr),
-                ('rounded_toward_zero', (abs(p) >> low) * (1 if p >= 0 else -1) & mr),
-                ('window_one_bit_high', (p >> (low + 1)) & mr),
-                ('window_one_bit_low', ((p >> (low - 1)) & mr) if low >= 1 else None),
+        lo = max(low, 0)
+        alts = (('bits_above_double_width_read_as_zero', ((p & ((1 << dw) - 1)) >> lo) & mr),
+                ('unsigned_product', ((x * y) >> lo) & mr),
+                ('rounded_toward_zero', (abs(p) >> lo) * (1 if p >= 0 else -1) & mr),
+                ('window_one_bit_high', (p >> (lo + 1)) & mr),
+                ('window_one_bit_low', ((p >> (lo - 1)) & mr) if lo >= 1 else None),
                 ('window_at_fr_only', (p >> rf[2]) & mr),
                 ('no_rescale', p & mr))
-        rel = next((k for k, a in alts if a == got), 'other')
+        rel = next((k for k, a in alts if a == got), 'other') if low >= 0 else 'other'
         vs.append(V('fxp_mult', dict(block='FixedPointMult', config_class=cc, relation=rel, product='negative' if p < 0 else 'non_negative'),
                     exp, got, 'FixedPointMult %s: exact product %d * 2**-%d, expected word %#x observed %#x [%s]' % (tag, p, af[2] + bf[2], exp, got, rel)))
     if cc != 'same_format':
@@ -174,7 +175,7 @@ def configs(tier, seed):
         if (af, bf, rf) != (af, af, af):
             out.append((af, bf, rf, 'exhaustive'))
     pool = small_formats(5) + WIDE
-    for _ in range(150 if tier == 'quick' else 1500):
+    for _ in range(150 if tier == 'quick' else 4000):
         af, bf, rf = rnd.choice(pool), rnd.choice(pool), rnd.choice(pool)
         if af == bf == rf:
             continue
@@ -193,7 +194,7 @@ def operand_pairs(af, bf, mode, tier, rnd):
         return itertools.product(range(1 << wa), range(1 << wb))
     nb = 6 if tier == 'quick' else 24
     xs, ys = bset(wa, af[2], rnd, nb), bset(wb, bf[2], rnd, nb)
-    nr = 400 if tier == 'quick' else 8000
+    nr = 400 if tier == 'quick' else 20000
     return itertools.chain(itertools.product(xs, ys), ((rnd.getrandbits(wa), rnd.getrandbits(wb)) for _ in range(nr)),
                            # close operands: comparator / subtraction around equality
                            (((v + d) & ((1 << wa) - 1), v & ((1 << wb) - 1)) for v in xs for d in (1, -1) if wa == wb))
